@@ -32,6 +32,7 @@ fn main() {
                 shard: si,
                 nshards: sn,
                 tool_mode: args.flag("tool") || cfg!(miri),
+                sub: args.get_or("sub", ""),
                 verbose: args.flag("verbose"),
                 only,
                 cfg_filter: args.get("cfg").map(|s| s.to_string()),
@@ -42,6 +43,7 @@ fn main() {
                 family: String::new(),
                 max_viols: args.num("max-viols", 40) as usize,
                 sample_every: 997,
+                crumb: args.get("crumb").and_then(|p| std::fs::OpenOptions::new().create(true).write(true).truncate(true).open(p).ok()),
             };
             props::run(&mut ctx);
             ctx.emit();
